@@ -388,21 +388,15 @@ def run(chk: Check) -> None:
     concrete = 0
     n_numeric = 0
     n_done = 0
-    full_plan = plan + [(d, dict(c, _explore=True)) for d, c in explore]
-    for chunk in progs.chunks(full_plan, 600):
-        if time.time() - t0 > budget:
-            break
+    full_plan = plan + list(explore)
+    for chunk in progs.export_in_chunks(full_plan, max_models=600, deadline=t0 + budget):
         done, lines = [], []
-        for d, cfg in chunk:
-            if time.time() - t0 > budget:
-                break
-            cfg = dict(cfg)
-            is_explore = cfg.pop("_explore", False)
-            ex = progs.export(d, cfg)
+        for ex in chunk:
             if not ex.ok:
                 k = ex.error.split(":")[0]
                 raised[k] = raised.get(k, 0) + 1
                 continue
+            is_explore = int(ex.cfg["opset"]) < 21        # 13..20: explored and reported only
             tree = modeltree.from_proto(ex.proto, with_vinfo=False)
             done.append((ex, tree, is_explore))
             lines.append(modeltree.request("legal", tree))
@@ -469,7 +463,6 @@ def run(chk: Check) -> None:
                                     f"{progs.describe(ex.desc)}: opset {v} export computes something else than "
                                     f"the opset 23 export: {dis}",
                                     {"program": ex.desc, "config": ex.cfg, "disagreement": dis})
-        progs.clear_cache()
         chk.log(f"{n_done} models checked at {round(time.time() - chk.t0, 1)} s")
     chk.coverage["programs"] = n_done
     chk.info("exports", {"planned": len(full_plan), "exported": n_done, "export_raised": raised})
